@@ -951,3 +951,9 @@ LEVEL_NOTE = ('Trusted: Lean kernel; axioms ⊆ {propext, Classical.choice, Quot
               'not proved. Updates that raise leave a partially applied update behind in Python; the '
               'model returns no tree for them and histories end there.')
 TECHNIQUE = 'Lean 4 proof (frame by construction + induction over paths/histories) + model/code correspondence (differential)'
+
+
+# a process deleted while its update is in flight: nothing of it arrives afterwards, anywhere
+from harness import deadwriter as _dw                   # noqa: E402
+from harness.mixins import add_family as _add_family    # noqa: E402
+_add_family(globals(), _dw, 'deadwriter', _dw.oracle, share=0.02)
